@@ -223,4 +223,13 @@ theorem inv_clear_setDict {s : St} (h : Inv s) (c : CId) (n : Name) (p : PId) :
       rw [this]
       exact h.coh c' k0 h0
 
+theorem instantiated_classes {s s1 : St} {i : IId} {x : Inst} {n : Name} {p ip : PId}
+    (h : instantiated s i x n p = .ok (s1, ip)) : s1.classes = s.classes := by
+  unfold instantiated at h
+  split at h
+  · simp only [Except.ok.injEq, Prod.mk.injEq] at h; rw [← h.1]
+  · split at h
+    · cases h
+    · simp only [Except.ok.injEq, Prod.mk.injEq] at h; rw [← h.1]; rfl
+
 end ParamVerif.Store.Namespace
